@@ -27,7 +27,7 @@ CLAIMED = {
     "C14": ("fault_enumeration", "DESIGN.md §3 C14",
             "runtime monitoring with per-call fault, crash-point and lost-response enumeration: provider call log (at most one successful Create per UID per controller lifetime, finalizer stored before Create) and a synchronous post-write monitor on NodeClaim status writes (condition order and observable preconditions on the authoritative store), capacity-error deletion monitor",
             "NodeClaims produced by the real Provisioner are driven by the real lifecycle controller and an emulated kubelet in PRNG orders with fresh or monotonically lagging snapshots; each scenario is run fault-free to enumerate Karpenter's K calls and then once per (error kind, call), per crash point (restart rebuilds all in-memory state incl. the launch cache) and per lost-response write. Launched/Registered/Initialized may only become True in order and with their preconditions true at the instant of the write; capacity errors must delete the claim. Ten mutants caught. Held-on-observed.",
-            "One fault per run; staleness only for the reconciled NodeClaim; 'instance created but error returned' not modelled; trusts fake client merge-patch / optimistic-lock semantics."),
+            "One fault per run (quick: 500 / 409 / 404 on every write; thorough adds 429 / timeout and reads); staleness only for the reconciled NodeClaim; one claim in ten is deleted externally before its first reconcile; 'instance created but error returned' not modelled; trusts fake client merge-patch / optimistic-lock semantics."),
     "C15": ("exploration", "DESIGN.md §3 C15",
             "runtime monitoring of the unmodified hash / scheduler / lifecycle / nodeclaim-disruption controllers with independent oracles: reflection-generated differential hash check, and Kubernetes label-selector semantics over stored labels and annotations for drift; every launch choice the serialized NodeClaim permits is launched",
             "Part (a) walks a randomly populated NodePoolSpec by reflection: every template leaf set to two values must change the hash unless under requirements, permutations and non-template edits never do. Part (b) drives validation-accepted NodePools (CRD+CEL+RuntimeValidate) through the real hash controller, scheduler, Provisioner.Create / static provisioning, lifecycle launch of EVERY permitted (instance type, offering) and the real nodeclaim disruption controller: a fresh claim must not be Drifted. Part (c) edits the pool (violating / benign requirement edits, hashed-field edits, reorders, hash-version scenarios, reverts) and checks Drifted appears exactly when the statement says. One genuine defect fixed (Any() drawing excluded values), three recorded.",
@@ -58,7 +58,7 @@ CLAIMED = {
             "No world churn during the 15 s validation wait (the command's own simulation results are judged); a third of the worlds have capacity reservations (half exhausted, offered as unavailable) with the ReservedCapacity gate on; no PDBs or do-not-disrupt in these worlds (C07 covers blockers); trusts oracle, fake API, provider ground truth."),
     "C07": ("exploration", "DESIGN.md §3 C07",
             "runtime monitor: real disruption controller on clusters where every node is attractive and carries at most one blocker; every candidate of every command entering the orchestration queue judged against the statement's conjunction recomputed from the authoritative world (nominations from the harness' own record); blockers also applied during the validation wait",
-            "Clusters are made attractive for one mode (all empty / underutilised / drifted / drifted with terminationGracePeriod / mixed) with consolidateAfter 0s/5m/Never, policies WhenEmpty/WhenEmptyOrUnderutilized/Balanced and some uninitialised nodes; each node then gets at most one of 13 blockers or controls (node / pod / daemon-pod / terminal-pod do-not-disrupt in boolean and duration forms incl. expiry boundaries, PDB zero / double / allowing, nominated, deleting, recent pod event) and more are applied during the 15 s validation wait. No command may contain a node the statement excludes; drift may override pod-level blockers only with a terminationGracePeriod. Held-on-observed; evidence lists per (method, blocker) how often blocked nodes were spared.",
+            "Clusters are made attractive for one mode (all empty / underutilised / drifted / drifted with terminationGracePeriod / mixed) with consolidateAfter 0s/5m/Never, policies WhenEmpty/WhenEmptyOrUnderutilized/Balanced and some uninitialised nodes; each node then gets at most one of 14 blockers or controls (node / pod / daemon-pod / terminal-pod do-not-disrupt in boolean and duration forms incl. expiry boundaries, PDB zero / double / allowing, nominated, nominated and renewed shortly before the first window ends, deleting, recent pod event) and more are applied during the 15 s validation wait. No command may contain a node the statement excludes; drift may override pod-level blockers only with a terminationGracePeriod. Held-on-observed; evidence lists per (method, blocker) how often blocked nodes were spared.",
             "Static pools / StaticDrift and capacity-buffer placements are not generated (no cell for them); nomination instants are the harness' own record of NominateNodeForPod calls and StartCommand placements; trusts PDB arithmetic of the fake eviction endpoint."),
     "C08": ("fault_enumeration", "DESIGN.md §3 C08",
             "runtime monitoring with per-call fault and crash-point enumeration: synchronous monitor on candidate NodeClaim deletes issued by the orchestration queue (judged against the replacements' Initialized condition on the authoritative store), rollback monitor over the API objects and cluster state after failed / crashed actions, double-command monitor",
